@@ -238,7 +238,7 @@ func (d *DFA) SearchAtAnchored(cache *DFACache, haystack []byte, at int) int {
 	// Get ANCHORED start state (requires match to start exactly at 'at')
 	currentState := d.getStartState(cache, haystack, at, true)
 	if currentState == nil {
-		return d.nfaFallback(haystack, at)
+		return d.nfaFallbackAnchored(haystack, at)
 	}
 
 	lastMatch := -1
@@ -271,22 +271,15 @@ func (d *DFA) SearchAtAnchored(cache *DFACache, haystack []byte, at int) int {
 		case InvalidState:
 			currentState = cache.getState(sid)
 			if currentState == nil {
-				return d.nfaFallback(haystack, at)
+				return d.nfaFallbackAnchored(haystack, at)
 			}
 			nextState, err := d.determinize(cache, currentState, b)
 			if err != nil {
-				if isCacheCleared(err) {
-					currentState = d.getStartState(cache, haystack, pos, true)
-					if currentState == nil {
-						return d.nfaFallback(haystack, at)
-					}
-					sid = currentState.id
-					ft = cache.flatTrans
-					ftLen = len(ft)
-					pos--
-					continue
-				}
-				return d.nfaFallback(haystack, at)
+				// Includes the cache-cleared signal: the threads in flight are gone with
+				// the cleared states, and an anchored search cannot be resumed from a
+				// start state at a later position. Let the NFA answer this search; the
+				// (now empty) cache serves the next one.
+				return d.nfaFallbackAnchored(haystack, at)
 			}
 			if nextState == nil {
 				return lastMatch
@@ -876,18 +869,7 @@ func (d *DFA) searchEarliestMatchAnchored(cache *DFACache, haystack []byte, star
 			}
 			nextState, err := d.determinize(cache, currentState, b)
 			if err != nil {
-				if isCacheCleared(err) {
-					currentState = d.getStartState(cache, haystack, pos, true)
-					if currentState == nil {
-						start, end, matched := d.pikevm.SearchAt(haystack, startPos)
-						return matched && start == startPos && end >= start
-					}
-					sid = currentState.id
-					ft = cache.flatTrans
-					ftLen = len(ft)
-					pos--
-					continue
-				}
+				// Includes the cache-cleared signal (see SearchAtAnchored).
 				start, end, matched := d.pikevm.SearchAt(haystack, startPos)
 				return matched && start == startPos && end >= start
 			}
@@ -933,7 +915,7 @@ func (d *DFA) findWithPrefilterAt(cache *DFACache, haystack []byte, startAt int)
 	// Get start state based on look-behind context at candidate position
 	currentState := d.getStartStateForUnanchored(cache, haystack, pos)
 	if currentState == nil {
-		return d.nfaFallback(haystack, 0)
+		return d.nfaFallback(haystack, startAt)
 	}
 
 	// Track last match position for leftmost-longest semantics
@@ -955,7 +937,7 @@ func (d *DFA) findWithPrefilterAt(cache *DFACache, haystack []byte, startAt int)
 				pos = candidate
 				newStart := d.getStartStateForUnanchored(cache, haystack, pos)
 				if newStart == nil {
-					return d.nfaFallback(haystack, 0)
+					return d.nfaFallback(haystack, startAt)
 				}
 				sid = newStart.id
 				ft = cache.flatTrans
@@ -984,21 +966,13 @@ func (d *DFA) findWithPrefilterAt(cache *DFACache, haystack []byte, startAt int)
 		case InvalidState:
 			currentState = cache.getState(sid)
 			if currentState == nil {
-				return d.nfaFallback(haystack, 0)
+				return d.nfaFallback(haystack, startAt)
 			}
 			nextState, err := d.determinize(cache, currentState, haystack[pos])
 			if err != nil {
-				if isCacheCleared(err) {
-					newStart := d.getStartStateForUnanchored(cache, haystack, pos)
-					if newStart == nil {
-						return d.nfaFallback(haystack, 0)
-					}
-					sid = newStart.id
-					ft = cache.flatTrans
-					ftLen = len(ft)
-					continue
-				}
-				return d.nfaFallback(haystack, 0)
+				// Includes the cache-cleared signal: restarting from a start state here
+				// would drop the match attempts that began before pos.
+				return d.nfaFallback(haystack, startAt)
 			}
 			if nextState == nil {
 				// Dead state — prefilter skip
@@ -1013,7 +987,7 @@ func (d *DFA) findWithPrefilterAt(cache *DFACache, haystack []byte, startAt int)
 				pos = candidate
 				newStart := d.getStartStateForUnanchored(cache, haystack, pos)
 				if newStart == nil {
-					return d.nfaFallback(haystack, 0)
+					return d.nfaFallback(haystack, startAt)
 				}
 				sid = newStart.id
 				ft = cache.flatTrans
@@ -1037,7 +1011,7 @@ func (d *DFA) findWithPrefilterAt(cache *DFACache, haystack []byte, startAt int)
 			pos = candidate
 			newStart := d.getStartStateForUnanchored(cache, haystack, pos)
 			if newStart == nil {
-				return d.nfaFallback(haystack, 0)
+				return d.nfaFallback(haystack, startAt)
 			}
 			sid = newStart.id
 			ft = cache.flatTrans
@@ -1632,6 +1606,17 @@ func (d *DFA) nfaFallback(haystack []byte, startPos int) int {
 	return end
 }
 
+// nfaFallbackAnchored is nfaFallback for anchored searches: the match must start
+// exactly at startPos. The leftmost match from startPos starts there if any match
+// does, so a leftmost match that starts later means "no anchored match".
+func (d *DFA) nfaFallbackAnchored(haystack []byte, startPos int) int {
+	start, end, matched := d.pikevm.SearchAt(haystack, startPos)
+	if !matched || start != startPos {
+		return -1
+	}
+	return end
+}
+
 // matchesEmpty checks if the pattern matches an empty string
 func (d *DFA) matchesEmpty(cache *DFACache) bool {
 	// With 1-byte match delay, the start state is never tagged as match.
@@ -1774,7 +1759,7 @@ func (d *DFA) SearchReverse(cache *DFACache, haystack []byte, start, end int) in
 	// Get start state for reverse search
 	currentState := d.getStartStateForReverse(cache, haystack, end)
 	if currentState == nil {
-		return d.nfaFallbackReverse(haystack, start, end)
+		return SearchReverseLimitedQuadratic
 	}
 
 	lastMatch := -1
@@ -1868,21 +1853,13 @@ func (d *DFA) SearchReverse(cache *DFACache, haystack []byte, start, end int) in
 		case InvalidState:
 			currentState = cache.getState(sid)
 			if currentState == nil {
-				return d.nfaFallbackReverse(haystack, start, end)
+				return SearchReverseLimitedQuadratic
 			}
 			nextState, err := d.determinize(cache, currentState, b)
 			if err != nil {
-				if isCacheCleared(err) {
-					currentState = d.getStartStateForReverse(cache, haystack, at+1)
-					if currentState == nil {
-						return d.nfaFallbackReverse(haystack, start, end)
-					}
-					sid = currentState.id
-					ft = cache.flatTrans
-					ftLen = len(ft)
-					continue
-				}
-				return d.nfaFallbackReverse(haystack, start, end)
+				// Cache full, or cleared under our feet (the threads in flight went with
+				// the cleared states): the reverse DFA cannot answer this search.
+				return SearchReverseLimitedQuadratic
 			}
 			if nextState == nil {
 				return lastMatch
@@ -1922,6 +1899,11 @@ func (d *DFA) SearchReverse(cache *DFACache, haystack []byte, start, end int) in
 // SearchReverseLimitedQuadratic is returned by SearchReverseLimited when the reverse
 // scan reaches the minStart bound, indicating potential quadratic behavior.
 // The caller should fall back to a non-quadratic engine (e.g., PikeVM).
+//
+// SearchReverse and SearchReverseLimited also return it when the reverse DFA
+// cannot answer at all (cache full with the clear budget used up, or cache
+// cleared in the middle of the scan): there is no reverse NFA simulation to fall
+// back on inside this package, so the caller must use its forward engine.
 const SearchReverseLimitedQuadratic = -2
 
 // SearchReverseLimited performs a backward DFA search like SearchReverse, but with
@@ -1951,7 +1933,7 @@ func (d *DFA) SearchReverseLimited(cache *DFACache, haystack []byte, start, end,
 
 	currentState := d.getStartStateForReverse(cache, haystack, end)
 	if currentState == nil {
-		return d.nfaFallbackReverse(haystack, start, end)
+		return SearchReverseLimitedQuadratic
 	}
 
 	lastMatch := -1
@@ -1984,22 +1966,12 @@ func (d *DFA) SearchReverseLimited(cache *DFACache, haystack []byte, start, end,
 		case InvalidState:
 			currentState = cache.getState(sid)
 			if currentState == nil {
-				return d.nfaFallbackReverse(haystack, start, end)
+				return SearchReverseLimitedQuadratic
 			}
 			nextState, err := d.determinize(cache, currentState, b)
 			if err != nil {
-				if isCacheCleared(err) {
-					currentState = d.getStartStateForReverse(cache, haystack, at+1)
-					if currentState == nil {
-						return d.nfaFallbackReverse(haystack, start, end)
-					}
-					sid = currentState.id
-					ft = cache.flatTrans
-					ftLen = len(ft)
-					at++ // Will be decremented by for-loop
-					continue
-				}
-				return d.nfaFallbackReverse(haystack, start, end)
+				// Cache full or cleared: give up, the caller falls back (see SearchReverse).
+				return SearchReverseLimitedQuadratic
 			}
 			if nextState == nil {
 				return lastMatch
@@ -2039,14 +2011,22 @@ func (d *DFA) SearchReverseLimited(cache *DFACache, haystack []byte, start, end,
 //
 // Zero-allocation implementation that reads bytes in reverse order.
 func (d *DFA) IsMatchReverse(cache *DFACache, haystack []byte, start, end int) bool {
+	matched, _ := d.TryIsMatchReverse(cache, haystack, start, end)
+	return matched
+}
+
+// TryIsMatchReverse is IsMatchReverse with an explicit verdict on whether the
+// reverse DFA could answer: ok is false when it gave up (cache full or cleared in
+// the middle of the scan), in which case matched is meaningless and the caller
+// must use its forward engine.
+func (d *DFA) TryIsMatchReverse(cache *DFACache, haystack []byte, start, end int) (matched, ok bool) {
 	if end <= start || end > len(haystack) {
-		return false
+		return false, true
 	}
 
 	currentState := d.getStartStateForReverse(cache, haystack, end)
 	if currentState == nil {
-		_, _, matched := d.pikevm.Search(haystack[start:end])
-		return matched
+		return false, false
 	}
 
 	// With 1-byte match delay, start states are never match states.
@@ -2073,35 +2053,21 @@ func (d *DFA) IsMatchReverse(cache *DFACache, haystack []byte, start, end int) b
 		case InvalidState:
 			currentState = cache.getState(sid)
 			if currentState == nil {
-				_, _, matched := d.pikevm.Search(haystack[start:end])
-				return matched
+				return false, false
 			}
 			nextState, err := d.determinize(cache, currentState, b)
 			if err != nil {
-				if isCacheCleared(err) {
-					currentState = d.getStartStateForReverse(cache, haystack, at+1)
-					if currentState == nil {
-						_, _, matched := d.pikevm.Search(haystack[start:end])
-						return matched
-					}
-					sid = currentState.id
-					ft = cache.flatTrans
-					ftLen = len(ft)
-					at++ // Will be decremented by for-loop
-					continue
-				}
-				_, _, matched := d.pikevm.Search(haystack[start:end])
-				return matched
+				return false, false
 			}
 			if nextState == nil {
-				return false
+				return false, true
 			}
 			sid = nextState.id
 			ft = cache.flatTrans
 			ftLen = len(ft)
 
 		case DeadState:
-			return false
+			return false, true
 
 		default:
 			sid = nextID
@@ -2109,13 +2075,13 @@ func (d *DFA) IsMatchReverse(cache *DFACache, haystack []byte, start, end int) b
 
 		// 1-byte match delay: match detected after transition
 		if cache.IsMatchState(sid) {
-			return true
+			return true, true
 		}
 	}
 
 	// EOI for reverse: check if current state's NFA states contain match
 	eoi := cache.getState(sid)
-	return eoi != nil && containsNFAMatch(d.nfa, eoi.NFAStates())
+	return eoi != nil && containsNFAMatch(d.nfa, eoi.NFAStates()), true
 }
 
 // getStartStateForReverse returns the appropriate start state for reverse search.
@@ -2155,14 +2121,4 @@ func (d *DFA) getStartStateForReverse(cache *DFACache, haystack []byte, end int)
 
 	cache.startTable.Set(kind, false, insertedState.ID())
 	return insertedState
-}
-
-// nfaFallbackReverse handles NFA fallback for reverse search.
-func (d *DFA) nfaFallbackReverse(haystack []byte, start, end int) int {
-	// For reverse fallback, we need to search the region and find match start
-	matchStart, _, matched := d.pikevm.Search(haystack[start:end])
-	if !matched {
-		return -1
-	}
-	return start + matchStart
 }
